@@ -40,7 +40,7 @@ def check(ctx: Ctx) -> str:
 
     ctx.rule("R2", "tojson: htmlsafe_json_dumps serialises first, then replaces exactly the four characters < > & ' with unicode escapes, and marks the result safe last")
     hj = repo.func("utils:htmlsafe_json_dumps")
-    rets = astq.returns(hj.node)
+    rets = astq.returns(hj.nnode)  # normal form: a local naming the serialised text is inlined
     ctx.need(len(rets) == 1, "htmlsafe_json_dumps shape changed")
     chain = []
     cur = rets[0].value
@@ -99,10 +99,13 @@ def check(ctx: Ctx) -> str:
     ctx.rule("R6", "filters combining a safe string with plain arguments escape the plain side: replace, join; escape/forceescape escape the string form")
     rp = repo.func("filters:do_replace")
     s = ast.unparse(rp.node)
-    ctx.check("if not eval_ctx.autoescape:" in s and "s = escape(s)" in s and "s.replace(soft_str(old), soft_str(new), count)" in s, "replace", "filters:do_replace", "replace escapes when arguments are markup", "do_replace must escape the subject when old/new are markup and it is not, and replace via soft_str on both arguments", rp.loc())
+    esc = [a for a in ast.walk(rp.node) if isinstance(a, ast.Assign) and ast.unparse(a) == "s = escape(s)"]
+    esc_ok = len(esc) == 1 and ("eval_ctx.autoescape", True) in astq.guard_atoms(rp.node, esc[0])
+    ctx.check(esc_ok and "s.replace(soft_str(old), soft_str(new), count)" in s, "replace", "filters:do_replace", "replace escapes when arguments are markup", "do_replace must escape the subject when old/new are markup and it is not, and replace via soft_str on both arguments", rp.loc())
     jn = repo.func("filters:sync_do_join")
-    s = ast.unparse(jn.node)
-    ctx.check("d = escape(d)" in s and "soft_str(d).join(map(soft_str, value))" in s and "if do_escape:" in s, "join", "filters:sync_do_join", "join escapes the delimiter", "join must escape a plain delimiter when any item is markup and rely on Markup.join otherwise", jn.loc())
+    s = jn.ntext
+    desc = [a for a in ast.walk(jn.nnode) if isinstance(a, ast.Assign) and ast.unparse(a) == "d = escape(d)"]
+    ctx.check(len(desc) == 1 and ("do_escape", True) in astq.guard_atoms(jn.nnode, desc[0]) and "soft_str(d).join(map(soft_str, value))" in s, "join", "filters:sync_do_join", "join escapes the delimiter", "join must escape a plain delimiter when any item is markup and rely on Markup.join otherwise", jn.loc())
     fe = repo.func("filters:do_forceescape")
     ctx.check(ast.unparse(astq.returns(fe.node)[-1].value) == "escape(str(value))", "forceescape", "filters:do_forceescape", "forceescape", "forceescape must escape the plain string form of its input", fe.loc())
     ft = repo.const_map("filters:FILTERS")
